@@ -68,6 +68,9 @@ def corpus():
         "gaussvol %s %d %d" % (hx("1/ns"), 3600 * _plan.S, 60 * _plan.S),
         "bramp 1 120 1000000000 %d %d %s 60000000000" % (60 * _plan.S, 60 * _plan.S, "0,%d,%d" % (30 * _plan.S, 60 * _plan.S)),    # 1/s -> 120/m: different units
         "bramp 10 200 100000000 %d %d %s 1000000000" % (10 * _plan.S, 10 * _plan.S, "0,%d,%d" % (5 * _plan.S, 10 * _plan.S)),       # 10/100ms -> 200/s
+        # an end rate that is not a whole number per start unit: 0/s -> 119/m is 1.98/s at the end, 1.95/s a second before it
+        "bramp 0 119 1000000000 %d %d %s 60000000000" % (60 * _plan.S, 60 * _plan.S, "0,%d,%d,%d" % (30 * _plan.S, 59 * _plan.S, 60 * _plan.S)),
+        "bramp 5 7 1000000000 %d %d %s 2000000000" % (20 * _plan.S, 20 * _plan.S, "0,%d,%d,%d" % (10 * _plan.S, 19 * _plan.S, 20 * _plan.S)),   # 5/s -> 7/2s
     ] + [c for c in _plan.cli_corpus() if " timestage=" not in c]      # (the timed-stage cases belong to C16 / C01: known finding D23)
 
 
@@ -89,7 +92,8 @@ def generate(rng, tier):
     for _ in range({"quick": 20, "thorough": 300, "search": 80}[tier]):
         su, eu = rng.sample([_plan.S // 10, _plan.S, 60 * _plan.S, _plan.S // 2], 2)
         dur = max(su, eu) * rng.choice([1, 2, 10])
-        out.append("bramp %d %d %d %d %d %s %d" % (rng.randint(0, 20), rng.randint(21, 400), su, dur, dur, "0,%d,%d" % (dur // 2, dur), eu))
+        out.append("bramp %d %d %d %d %d %s %d" % (rng.randint(0, 20), rng.randint(21, 400), su, dur, dur,
+                                                  "0,%d,%d,%d,%d" % (dur // 2, dur - dur // 8, dur - dur // 50, dur), eu))
     # --peak-rate of the gaussian trigger: a rate string too, with units down to nanoseconds
     for _ in range({"quick": 60, "thorough": 1500, "search": 400}[tier]):
         r = _plan.rate_string(rng) if rng.random() < 0.4 else "%d/%s" % (rng.choice([0, 1, 3, 5, 1000]), rng.choice(
